@@ -12,6 +12,7 @@
 #include <sys/mman.h>
 #include <sys/personality.h>
 #include <sys/stat.h>
+#include <spawn.h>
 #include <sys/wait.h>
 #include <unistd.h>
 
@@ -214,51 +215,96 @@ static std::string read_fd_all(int fd) {
     return s;
 }
 
+// The child side of guarded execution: a pristine process whose whole world is
+// (this binary, the canonical plan text on fd 200).  Results go to the shared
+// region on fd 201, stderr to fd 2 (a memfd owned by the parent).
+static void publish_outcome(Shared *sh, const Outcome &o) {
+    snprintf(sh->cls, sizeof sh->cls, "%s", o.cls.c_str());
+    snprintf(sh->key, sizeof sh->key, "%s", o.key.c_str());
+    snprintf(sh->detail, sizeof sh->detail, "%s", o.detail.c_str());
+    sh->hash = o.hash;
+    sh->cases = o.cases;
+    sh->out_nbinds = 0;
+    for (auto &b : o.binds) {
+        if (sh->out_nbinds >= 16) break;
+        SharedBind &sb = sh->out_binds[sh->out_nbinds++];
+        sb.op = (uint32_t)b.op;
+        snprintf(sb.arg, sizeof sb.arg, "%s", b.arg.c_str());
+        sb.value = b.value;
+    }
+    sh->n_nt = (uint32_t)std::min<size_t>(o.nontrivial.size(), 8192);
+    for (uint32_t i = 0; i < sh->n_nt; i++) sh->nt[i] = o.nontrivial[i];
+    sh->plan_len = (uint32_t)std::min<size_t>(o.concrete_plan.size(), sizeof(sh->plan_text) - 1);
+    memcpy(sh->plan_text, o.concrete_plan.data(), sh->plan_len);
+    sh->done = 1;
+}
+
+static int child_main(Engine &e) {
+    Shared *sh = (Shared *)mmap(nullptr, sizeof(Shared), PROT_READ | PROT_WRITE, MAP_SHARED, 201, 0);
+    if (sh == MAP_FAILED) return 3;
+    std::string text = read_fd_all(200);
+    Plan p;
+    std::string err;
+    if (!Plan::from_text(text, p, err)) return 3;
+    close(200);
+    alarm(e.hang_timeout_s()); // wall-clock backstop; deterministic termination verdicts come from the step budget
+    g_sh = sh;
+    g_log.reset();
+    ctx_clear();
+    scrub_stack();
+    Outcome o = e.execute(p);
+    publish_outcome(sh, o);
+    fflush(stdout);
+    _exit(0);
+}
+
 GuardedResult guarded_execute(Engine &e, const Plan &p, int timeout_s) {
+    (void)timeout_s;
     GuardedResult r;
-    Shared *sh = (Shared *)mmap(nullptr, sizeof(Shared), PROT_READ | PROT_WRITE,
-                                MAP_SHARED | MAP_ANONYMOUS, -1, 0);
+    int sfd = memfd_create("sim-shared", 0);
+    if (sfd < 0 || ftruncate(sfd, sizeof(Shared)) != 0) {
+        perror("memfd");
+        exit(3);
+    }
+    Shared *sh = (Shared *)mmap(nullptr, sizeof(Shared), PROT_READ | PROT_WRITE, MAP_SHARED, sfd, 0);
     if (sh == MAP_FAILED) {
         perror("mmap");
         exit(3);
     }
-    memset(sh, 0, sizeof(*sh));
     int efd = memfd_create("sim-stderr", 0);
+    int pfd = memfd_create("sim-plan", 0);
+    {
+        // canonical text: the same plan always reaches the child as the same bytes,
+        // whatever comments or expectation lines its file carried
+        Plan canon = p;
+        canon.expect_class.clear();
+        canon.expect_key.clear();
+        std::string t = canon.to_text();
+        if (write(pfd, t.data(), t.size()) != (ssize_t)t.size()) {
+            perror("write plan");
+            exit(3);
+        }
+        lseek(pfd, 0, SEEK_SET);
+    }
     fflush(stdout);
     fflush(stderr);
-    pid_t pid = fork();
-    if (pid < 0) {
-        perror("fork");
+    posix_spawn_file_actions_t fa;
+    posix_spawn_file_actions_init(&fa);
+    posix_spawn_file_actions_adddup2(&fa, pfd, 200);
+    posix_spawn_file_actions_adddup2(&fa, sfd, 201);
+    posix_spawn_file_actions_adddup2(&fa, efd, 2);
+    std::string ename = e.name();
+    const char *cargv[] = {"sim", ename.c_str(), "child", nullptr};
+    // fixed, minimal environment: the child's stack and heap layout must not
+    // depend on who launched the check
+    const char *cenv[] = {"PATH=/usr/local/sbin:/usr/local/bin:/usr/sbin:/usr/bin:/sbin:/bin", "SIM_NO_REEXEC=1",
+                          "LANG=C", nullptr};
+    pid_t pid;
+    int rc = posix_spawn(&pid, "/proc/self/exe", &fa, nullptr, (char *const *)cargv, (char *const *)cenv);
+    posix_spawn_file_actions_destroy(&fa);
+    if (rc != 0) {
+        fprintf(stderr, "posix_spawn failed: %s\n", strerror(rc));
         exit(3);
-    }
-    if (pid == 0) {
-        if (efd >= 0) dup2(efd, 2);
-        alarm((unsigned)timeout_s);
-        g_sh = sh;
-        g_log.reset();
-        ctx_clear();
-        scrub_stack();
-        Outcome o = e.execute(p);
-        snprintf(sh->cls, sizeof sh->cls, "%s", o.cls.c_str());
-        snprintf(sh->key, sizeof sh->key, "%s", o.key.c_str());
-        snprintf(sh->detail, sizeof sh->detail, "%s", o.detail.c_str());
-        sh->hash = o.hash;
-        sh->cases = o.cases;
-        sh->out_nbinds = 0;
-        for (auto &b : o.binds) {
-            if (sh->out_nbinds >= 16) break;
-            SharedBind &sb = sh->out_binds[sh->out_nbinds++];
-            sb.op = (uint32_t)b.op;
-            snprintf(sb.arg, sizeof sb.arg, "%s", b.arg.c_str());
-            sb.value = b.value;
-        }
-        sh->n_nt = (uint32_t)std::min<size_t>(o.nontrivial.size(), 8192);
-        for (uint32_t i = 0; i < sh->n_nt; i++) sh->nt[i] = o.nontrivial[i];
-        sh->plan_len = (uint32_t)std::min<size_t>(o.concrete_plan.size(), sizeof(sh->plan_text) - 1);
-        memcpy(sh->plan_text, o.concrete_plan.data(), sh->plan_len);
-        sh->done = 1;
-        fflush(stdout);
-        _exit(0);
     }
     int status = 0;
     while (waitpid(pid, &status, 0) < 0 && errno == EINTR) {
@@ -295,9 +341,14 @@ GuardedResult guarded_execute(Engine &e, const Plan &p, int timeout_s) {
         } else if (WIFSIGNALED(status)) {
             int sig = WTERMSIG(status);
             r.how = "signal " + std::to_string(sig);
-            if (sig == SIGALRM) {
+            if (sig == SIGALRM && !e.restart_after_violation()) {
                 cls = "hang";
                 extra = "wallclock";
+            } else if (sig == SIGALRM) {
+                // unsanitised build without a step budget: whether a derailed call dies or
+                // spins until the backstop fires depends on timing, so both are one class
+                extra = "killed-by-signal";
+                r.how += " (SIGALRM: wall-clock backstop)";
             } else {
                 // which signal ends a run after memory corruption depends on heap
                 // layout; the key only says that the process was killed
@@ -315,6 +366,8 @@ GuardedResult guarded_execute(Engine &e, const Plan &p, int timeout_s) {
         r.stderr_excerpt = err.substr(0, 6000);
     }
     munmap(sh, sizeof(Shared));
+    close(sfd);
+    close(pfd);
     return r;
 }
 
@@ -323,8 +376,13 @@ Plan minimise(Engine &e, const Plan &p0, const std::string &cls, const std::stri
               int *tests_out) {
     Plan best = p0;
     int tests = 0;
+    time_t t_start = time(nullptr);
     auto ok = [&](const Plan &c) {
         if (tests >= budget) return false;
+        if (time(nullptr) - t_start > 45) { // a smaller replay is a convenience, not a verdict
+            tests = budget;
+            return false;
+        }
         tests++;
         GuardedResult r = guarded_execute(e, c);
         return r.out.cls == cls && r.out.key == key;
@@ -518,6 +576,10 @@ int sim_main(int argc, char **argv) {
     // simulator process runs with it disabled.
     {
         int pers = personality(0xffffffff);
+        if (pers != -1 && (pers & ADDR_NO_RANDOMIZE) && getenv("SIM_KEEP_ASLR")) {
+            // "fresh process" context of E-RESIDUE: a different address-space layout on purpose
+            if (personality(pers & ~ADDR_NO_RANDOMIZE) != -1) execv("/proc/self/exe", argv);
+        }
         if (pers != -1 && !(pers & ADDR_NO_RANDOMIZE) && !getenv("SIM_NO_REEXEC")) {
             if (personality(pers | ADDR_NO_RANDOMIZE) != -1) {
                 setenv("SIM_NO_REEXEC", "1", 1);
@@ -585,6 +647,17 @@ int sim_main(int argc, char **argv) {
         fflush(stdout);
         return r.out.violation() ? 1 : 0;
     }
+    if (mode == "child") return child_main(*e);
+    if (mode == "ctx") { // in-process execution of one plan (used by the fresh-process context)
+        const char *path = arg_value(argc, argv, "--plan", nullptr);
+        Plan p;
+        std::string err;
+        if (!path || !Plan::load(path, p, err)) return 3;
+        Outcome o = e->execute(p);
+        print_result(o);
+        fflush(stdout);
+        return 0;
+    }
     if (mode == "min") {
         const char *path = arg_value(argc, argv, "--plan", nullptr);
         const char *outp = arg_value(argc, argv, "--out", nullptr);
@@ -602,6 +675,7 @@ int sim_main(int argc, char **argv) {
         }
         Plan q = concretise(p, r0.out);
         int tests = 0;
+        if (r0.out.cls == "hang") budget = std::min(budget, 6); // every test of a hang costs the full timeout
         Plan m = minimise(*e, q, r0.out.cls, r0.out.key, budget, &tests);
         m.save(outp);
         printf("MIN class=%s tests=%d ops=%zu->%zu key=%s\n", r0.out.cls.c_str(), tests, p.ops.size(),
@@ -639,7 +713,9 @@ int sim_main(int argc, char **argv) {
             g_log.reset();
             ctx_clear();
             scrub_stack();
+            alarm(e->hang_timeout_s()); // backstop only: a run that never returns kills the worker
             Outcome o = e->execute(p);
+            alarm(0);
             runs++;
             cases += o.cases;
             if (o.cls == "skip") skips++;
